@@ -19,6 +19,60 @@ import (
 //     are both the MAXIMUM of the requested ids; IsQuadTree runs before DeviationStats.
 // ---------------------------------------------------------------------------
 
+// flowOf summarises the control flow of a function body: one string per top-level statement; conditions and
+// assignments as source text, branch bodies reduced to how they leave the function ("return error", "return nil",
+// "no return"); log calls and other expression statements are dropped (they cannot change the verdict).
+func flowOf(fset *token.FileSet, list []ast.Stmt) []string {
+	src := func(n ast.Node) string {
+		var sb strings.Builder
+		_ = printer.Fprint(&sb, fset, n)
+		return strings.Join(strings.Fields(sb.String()), " ")
+	}
+	leave := func(body []ast.Stmt) string {
+		for _, st := range body {
+			if r, ok := st.(*ast.ReturnStmt); ok {
+				if len(r.Results) > 0 {
+					if id, ok := r.Results[len(r.Results)-1].(*ast.Ident); ok && id.Name == "nil" {
+						return "return nil"
+					}
+				}
+				return "return error"
+			}
+			switch st.(type) {
+			case *ast.ExprStmt:
+			default:
+				return "other: " + src(st)
+			}
+		}
+		return "no return"
+	}
+	var out []string
+	for _, st := range list {
+		switch s := st.(type) {
+		case *ast.IfStmt:
+			h := "if "
+			if s.Init != nil {
+				h += src(s.Init) + "; "
+			}
+			h += src(s.Cond) + " -> " + leave(s.Body.List)
+			if s.Else != nil {
+				h += " else ..."
+			}
+			out = append(out, h)
+		case *ast.RangeStmt:
+			out = append(out, "range "+src(s.X)+" { "+strings.Join(flowOf(fset, s.Body.List), " ; ")+" }")
+		case *ast.AssignStmt:
+			out = append(out, src(s))
+		case *ast.ReturnStmt:
+			out = append(out, leave([]ast.Stmt{s}))
+		case *ast.ExprStmt:
+		default:
+			out = append(out, "other: "+src(st))
+		}
+	}
+	return out
+}
+
 func genCli(repo string) (string, error) {
 	fset := token.NewFileSet()
 	mainF, err := parser.ParseFile(fset, filepath.Join(repo, "main.go"), nil, 0)
@@ -189,6 +243,13 @@ func genCli(repo string) (string, error) {
 		}
 	}
 
+	var validateFlow []string
+	for _, d := range mainF.Decls {
+		if fd, ok := d.(*ast.FuncDecl); ok && fd.Name.Name == "validateTileMatrixSet" {
+			validateFlow = flowOf(fset, fd.Body.List)
+		}
+	}
+
 	var b strings.Builder
 	b.WriteString("(* GENERATED by /verif/translator (CLI glue) from main.go and snap/snap.go on every run -- do not edit. *)\n")
 	b.WriteString("From Coq Require Import List String Bool.\nImport ListNotations.\nOpen Scope string_scope.\n\n")
@@ -202,7 +263,18 @@ func genCli(repo string) (string, error) {
 	b.WriteString("].\n\n")
 	fmt.Fprintf(&b, "(* injectSuffixIntoPath: name ++ this format ++ ext *)\nDefinition gen_suffix_format : string := %q.\n", suffix)
 	fmt.Fprintf(&b, "(* injectSuffixIntoPath has, statement by statement, the shape transcribed in Cli/Model.v *)\nDefinition gen_inject_shape : bool := %v.\n\n", injectShape)
+	b.WriteString("(* validateTileMatrixSet: its control flow, statement by statement (how every check leaves the function) *)\nDefinition gen_validate_flow : list string := [\n")
+	for i, f := range validateFlow {
+		sep := ";"
+		if i == len(validateFlow)-1 {
+			sep = ""
+		}
+		fmt.Fprintf(&b, "  %s%s\n", coqStr(f), sep)
+	}
+	b.WriteString("]%string.\n")
 	fmt.Fprintf(&b, "(* validateTileMatrixSet: deviation reported for slices.Max(ids); IsQuadTree runs before DeviationStats *)\nDefinition gen_validate_deepest_is_max : bool := %v.\nDefinition gen_validate_quadtree_first : bool := %v.\n", vMax, vQuadFirst)
 	fmt.Fprintf(&b, "(* snap.SnapPolygon: the grid is built for slices.Max(ids) *)\nDefinition gen_snap_deepest_is_max : bool := %v.\n", sMax)
 	return b.String(), nil
 }
+
+func coqStr(x string) string { return "\"" + strings.ReplaceAll(x, "\"", "\"\"") + "\"" }
